@@ -70,6 +70,44 @@ func (g *Eng) wait() {
 	g.st.WaitForIndexingUpto(c, g.st.LastCommittedTxID())
 }
 
+// codeFlags: facts about the code as it is, probed on the real engine (the `flags` of the model)
+type codeFlags struct{ nz, strict, uf bool }
+
+var flagsProbed *codeFlags
+
+func probeFlags(g *Eng) codeFlags {
+	if flagsProbed != nil {
+		return *flagsProbed
+	}
+	fl := codeFlags{nz: negZeroKeysDistinct()}
+	// strict: is a non-integral number rejected for an INTEGER field?
+	cs := &Coll{Name: "probe_strict", IDName: "_id", Fields: []Field{{"n", tInt, 1}}}
+	if err := g.createCollection(cs); err == nil {
+		_, err := g.insert(cs.Name, []map[string]any{{"n": 0.5}})
+		fl.strict = err != nil
+	}
+	// uf: insert 20, delete it, insert 20, insert 20: is the last one admitted?
+	cu := &Coll{Name: "probe_unique", IDName: "_id", Fields: []Field{{"n", tInt, 1}}, Indexes: []Index{{Cols: []string{"n"}, Unique: true}}}
+	if err := g.createCollection(cu); err == nil {
+		refresh := func() {
+			g.search(cu.Name, &Query{Order: []Ord{{"n", false}}, Limit: 1}, 0)
+			g.search(cu.Name, &Query{}, 0)
+		}
+		ids, err := g.insert(cu.Name, []map[string]any{{"n": 20.0}})
+		if err == nil && len(ids) == 1 {
+			refresh()
+			g.delete(cu.Name, byID(cu, ids[0]))
+			refresh()
+			g.insert(cu.Name, []map[string]any{{"n": 20.0}})
+			refresh()
+			_, err = g.insert(cu.Name, []map[string]any{{"n": 20.0}})
+			fl.uf = err == nil
+		}
+	}
+	flagsProbed = &fl
+	return fl
+}
+
 // guard converts a Go runtime panic inside the engine into an error value the caller reports
 type panicErr struct{ v any }
 
